@@ -1,21 +1,24 @@
 import NA.Gen.IosSkel
-import NA.Model.IosSessionSkel
 import NA.Model.IosSessionProg
 /-!
-# C15, generated fact (T-gen): the call skeleton of `go/pkg/ios/device.go` is the skeleton OF THE MODEL
+# C15, generated fact (T-gen): the interaction skeleton of `go/pkg/ios/device.go` is the skeleton OF THE MODEL
 
-`NA.Gen.IosSkel.skel` is rewritten from the source on every check.  The programs of
-`NA/Model/IosSessionProg.lean` are single terms with two readings:
+`NA.Gen.IosSkel.paths` is rewritten from the source on every check, in a normal form that does not
+depend on how the code is spelled (`translate/iosskel`, `NA/Model/IosSessionProg.lean`): sets of
+acyclic paths of interaction steps, constant-folded string arguments, `_` for everything else,
+no pure statements, no polarity, no guard-clause/nesting difference.
+
+The programs of `NA/Model/IosSessionProg.lean` are single terms with two readings:
 
 * `denote_*` — their semantics IS the executable model used by every C15 theorem
-  (`applyCommands … true`, `cmd … true`, `check`, `sendReloadCmd`, `cancelReload`, `prepareDevice`);
-* `skel_*` — their skeleton IS the regenerated skeleton of the Go function.
+  (`applyCommands … true`, `cmd … true`, `check`, `sendReloadCmd`, `cancelReload`, `prepareDevice`,
+  `stripReloadBanner`);
+* `paths_*` — their path set IS the regenerated one.
 
-Dropping or moving a `defer`, moving `s.writeMem()`, removing the re-arm, changing a prompt
-pattern or the order of the exchanges changes the generated data; restructuring the model breaks
-the `denote` equations.  `writeMem` (retry loop) and `stripReloadBanner` (early returns) are
-compared as declared token lists only (`skeleton_matches`); their semantics is tied by the
-differential runs of the harness.
+Dropping or moving a `defer`, moving `writeMem()` into the closure, removing the re-arm or the
+accumulation of `needReload`, forgetting `s.reloadActive = true` on a branch, changing a prompt
+pattern or the order of the exchanges changes the generated set; restructuring the model breaks
+the `denote` equations.  `writeMem` (retry loop) is compared with a declared path set.
 -/
 namespace NA.C15Skel
 open NA.Ios NA.Ios.Prog
@@ -46,6 +49,22 @@ theorem denote_sendReloadCmd (D : Device σ) (b : Bool) : denote (sendReloadCmdP
 
 theorem denote_cancelReload (D : Device σ) : denote (cancelReloadP D) = cancelReload D := rfl
 
+theorem denote_stripProbe (pre post : Str) : denote (stripProbeP (σ := σ) pre post) = stripProbe pre post := by
+  unfold stripProbe stripProbeP
+  simp only [denote]
+
+theorem denote_stripReloadBanner (out : Str) :
+    denote (stripReloadBannerP (σ := σ) out) = stripReloadBanner out := by
+  unfold stripReloadBanner stripReloadBannerP
+  simp only [denote, denote_stripProbe]
+  congr 1; funext act
+  cases act
+  · rfl
+  · simp only [if_true]
+    cases bannerFind out with
+    | none => rfl
+    | some r => rfl
+
 theorem denote_check (ci : Str) : denote (checkP (σ := σ) ci) = check ci := by
   unfold check checkP
   simp only [denote, bindM_pure_left]
@@ -66,31 +85,60 @@ theorem denote_cmd (D : Device σ) (c : Str) : denote (cmdP D c) = cmd D true c 
 theorem denote_applyCommands (D : Device σ) (cs : List Str) :
     denote (applyCommandsP D cs) = applyCommands D true cs := by
   unfold applyCommands applyCommandsP guarded guardedBody changeLoop
-  simp only [denote, bindM_pure_left, bindM_pure_right]
+  simp only [denote, bindM_pure_left]
 
-/-! ## their skeleton is the regenerated one -/
+/-! ## their path sets are the regenerated ones -/
 
-theorem skel_applyCommands (D : Device σ) (cs : List Str) :
-    NA.Gen.IosSkel.skel.lookup "ApplyCommands" = some (skel (applyCommandsP D cs)) := rfl
-theorem skel_cmd (D : Device σ) (c : Str) :
-    NA.Gen.IosSkel.skel.lookup "cmd" = some (skel (cmdP D c)) := rfl
-theorem skel_sendReloadCmd (D : Device σ) (b : Bool) :
-    NA.Gen.IosSkel.skel.lookup "sendReloadCmd" = some (skel (sendReloadCmdP D b)) := rfl
-theorem skel_scheduleReload (D : Device σ) :
-    NA.Gen.IosSkel.skel.lookup "scheduleReload" = some (skel (scheduleReloadP D)) := rfl
-theorem skel_extendReload (D : Device σ) :
-    NA.Gen.IosSkel.skel.lookup "extendReload" = some (skel (extendReloadP D)) := rfl
-theorem skel_cancelReload (D : Device σ) :
-    NA.Gen.IosSkel.skel.lookup "cancelReload" = some (skel (cancelReloadP D)) := rfl
-theorem skel_prepareDevice (D : Device σ) :
-    NA.Gen.IosSkel.skel.lookup "prepareDevice" = some (skel (prepareDeviceP D)) := rfl
+/-- a device without behaviour: the path set of a program does not depend on the device -/
+def noDev : Device Unit := { step := fun _ _ => ((), []) }
 
-/-- the remaining functions (`writeMem`, `stripReloadBanner`): declared token lists -/
-theorem skeleton_matches : NA.Gen.IosSkel.skel = NA.Ios.declaredSkel := rfl
+/-- the regenerated path set of a Go function -/
+def gen (f : String) : List SkelPath := (NA.Gen.IosSkel.paths.lookup f).getD [([.atom (.step "?missing")], false)]
+
+theorem paths_applyCommands (D : Device σ) (cs : List Str) :
+    sameSet (gen "ApplyCommands") (paths (applyCommandsP D cs)) = true := by
+  have h : paths (applyCommandsP D cs) = paths (applyCommandsP noDev []) := rfl
+  rw [h]; decide +kernel
+theorem paths_cmd (D : Device σ) (c : Str) : sameSet (gen "cmd") (paths (cmdP D c)) = true := by
+  have h : paths (cmdP D c) = paths (cmdP noDev []) := rfl
+  rw [h]; decide +kernel
+theorem paths_check (ci : Str) : sameSet (gen "cmd.check") (paths (checkP (σ := σ) ci)) = true := by
+  have h : paths (checkP (σ := σ) ci) = paths (checkP (σ := Unit) []) := rfl
+  rw [h]; decide +kernel
+theorem paths_sendReloadCmd (D : Device σ) (b : Bool) :
+    sameSet (gen "sendReloadCmd") (paths (sendReloadCmdP D b)) = true := by
+  have h : paths (sendReloadCmdP D b) = paths (sendReloadCmdP noDev false) := rfl
+  rw [h]; decide +kernel
+theorem paths_scheduleReload (D : Device σ) :
+    sameSet (gen "scheduleReload") (paths (scheduleReloadP D)) = true := by
+  have h : paths (scheduleReloadP D) = paths (scheduleReloadP noDev) := rfl
+  rw [h]; decide +kernel
+theorem paths_extendReload (D : Device σ) :
+    sameSet (gen "extendReload") (paths (extendReloadP D)) = true := by
+  have h : paths (extendReloadP D) = paths (extendReloadP noDev) := rfl
+  rw [h]; decide +kernel
+theorem paths_cancelReload (D : Device σ) :
+    sameSet (gen "cancelReload") (paths (cancelReloadP D)) = true := by
+  have h : paths (cancelReloadP D) = paths (cancelReloadP noDev) := rfl
+  rw [h]; decide +kernel
+theorem paths_prepareDevice (D : Device σ) :
+    sameSet (gen "prepareDevice") (paths (prepareDeviceP D)) = true := by
+  have h : paths (prepareDeviceP D) = paths (prepareDeviceP noDev) := rfl
+  rw [h]; decide +kernel
+theorem paths_stripReloadBanner (out : Str) :
+    sameSet (gen "stripReloadBanner") (paths (stripReloadBannerP (σ := σ) out)) = true := by
+  have h : paths (stripReloadBannerP (σ := σ) out) = paths (stripReloadBannerP (σ := Unit) []) := rfl
+  rw [h]; decide +kernel
+/-- `writeMem`: declared path set -/
+theorem paths_writeMem : sameSet (gen "writeMem") writeMemPaths = true := by decide
+
+/-- the comparison is not vacuous: the sets are non-empty and a different set is rejected -/
+example : gen "ApplyCommands" ≠ [] ∧ sameSet (gen "ApplyCommands") (gen "cmd") = false := by decide
 
 def obligations : List Lean.Name :=
   [``denote_applyCommands, ``denote_cmd, ``denote_check, ``denote_sendReloadCmd, ``denote_cancelReload,
-   ``denote_prepareDevice, ``skel_applyCommands, ``skel_cmd, ``skel_sendReloadCmd, ``skel_scheduleReload,
-   ``skel_extendReload, ``skel_cancelReload, ``skel_prepareDevice, ``skeleton_matches]
+   ``denote_prepareDevice, ``denote_stripReloadBanner,
+   ``paths_applyCommands, ``paths_cmd, ``paths_check, ``paths_sendReloadCmd, ``paths_scheduleReload,
+   ``paths_extendReload, ``paths_cancelReload, ``paths_prepareDevice, ``paths_stripReloadBanner, ``paths_writeMem]
 
 end NA.C15Skel
